@@ -56,4 +56,27 @@ theorem C02_rebinding_reports_current_value (env : Env W HS) (cfg : Cfg) (henv :
   unfold postBind1
   simp [henv]
 
+/-- a captured closure variable contributes exactly one event per call, at entry, with the value of the cell, and
+    marked as not overridable -/
+theorem C02_closure_one_event_at_entry (cfg : Cfg) (sc : String → Bool) (x : String) (v : Val)
+    (hv : v ≠ .absent) (hon : shouldInstr cfg x [] = true)
+    (st : St PyLite.World PyLite.HState) (hno : st.hs.override = none)
+    (hcell : lookupV ({ host := PyLite.host, sc := sc, hk := some cfg } : Env PyLite.World PyLite.HState) st x = some v) :
+    let env : Env PyLite.World PyLite.HState := { host := PyLite.host, sc := sc, hk := some cfg }
+    (freeHook env x st).1 = .ok ()
+    ∧ (freeHook env x st).2.hs.events
+        = st.hs.events ++ [{ name := x, key := .noneV, ann := PyLite.annVal (annArg none), value := v, ovr := false }] := by
+  intro env
+  have hl : lookup env x st = (.ok v, st) := by
+    unfold lookup
+    rw [show lookupV env st x = some v from hcell]
+  unfold freeHook
+  simp only [env]
+  rw [bind_def_M, show lookup ({ host := PyLite.host, sc := sc, hk := some cfg } : Env PyLite.World PyLite.HState) x st
+    = (.ok v, st) from hl]
+  simp only [hon, if_true]
+  rw [bind_def_M]
+  simp only [interactSem, PyLite.host, PyLite.hnd, hno, annValOpt]
+  cases v <;> first | exact absurd rfl hv | simp [pure_def_M]
+
 end Ptera.Props.C02
